@@ -1,0 +1,34 @@
+//go:build verif
+
+package integrate
+
+// Read-only views of the unexported fields of the merge helpers, for the verification harness only
+// (compiled with -tags verif; no behaviour of its own).
+
+// VerifUnitIDs returns the unit IDs held by a UnitDividedSpatialID (map order).
+func VerifUnitIDs(u *UnitDividedSpatialID) []string {
+	out := make([]string, 0, len(u.unitIDs))
+	for k := range u.unitIDs {
+		out = append(out, k)
+	}
+	return out
+}
+
+// VerifHighUnitIDs returns the unit IDs held by a HighSpatialID (map order).
+func VerifHighUnitIDs(h *HighSpatialID) []string {
+	out := make([]string, 0, len(h.unitIDs))
+	for k := range h.unitIDs {
+		out = append(out, k)
+	}
+	return out
+}
+
+// VerifHighLowIDs returns a copy of the lowIDs of a HighSpatialID.
+func VerifHighLowIDs(h *HighSpatialID) []string {
+	return append([]string{}, h.lowIDs...)
+}
+
+// VerifHighThreshold returns the threshold of a HighSpatialID.
+func VerifHighThreshold(h *HighSpatialID) int64 {
+	return h.threshold
+}
